@@ -21,7 +21,7 @@ def atheris_available():
         return False
 
 
-def campaign_target(pid, base_target, campaigns=16, runs=20000, max_len=4096, timeout=1500):
+def campaign_target(pid, base_target, campaigns=16, runs=20000, max_len=4096, max_time=240):
     """Target 'fuzz:<base>' for the thorough tier. Each enumerated case is one libFuzzer campaign (own seed, fresh corpus)."""
 
     def enum(tier):
@@ -36,10 +36,10 @@ def campaign_target(pid, base_target, campaigns=16, runs=20000, max_len=4096, ti
         out = os.path.join(core.VERIF_DIR, "out", "fuzz", pid, base_target, str(case["campaign"]))
         shutil.rmtree(out, ignore_errors=True)
         os.makedirs(out, exist_ok=True)
-        cmd = [sys.executable, "-B", os.path.join(HERE, "fuzz_worker.py"), pid, base_target, out, str(case["runs"]), str(case["seed"]), str(max_len)]
+        cmd = [sys.executable, "-B", os.path.join(HERE, "fuzz_worker.py"), pid, base_target, out, str(case["runs"]), str(case["seed"]), str(max_len), str(max_time)]
         env = dict(os.environ, PYTHONDONTWRITEBYTECODE="1", PYTHONHASHSEED="0")
         try:
-            subprocess.run(cmd, env=env, stdout=subprocess.DEVNULL, stderr=open(os.path.join(out, "stderr.txt"), "w"), timeout=timeout)
+            subprocess.run(cmd, env=env, stdout=subprocess.DEVNULL, stderr=open(os.path.join(out, "stderr.txt"), "w"), timeout=max_time + 200)
         except subprocess.TimeoutExpired:
             pass  # a time budget hit is never a violation; whatever was flushed counts
         try:
@@ -58,4 +58,6 @@ def campaign_target(pid, base_target, campaigns=16, runs=20000, max_len=4096, ti
         shutil.rmtree(os.path.join(out, "corpus"), ignore_errors=True)
         return cls, f
 
-    return Target(f"fuzz:{base_target}", check, enumerate_=enum, shards=campaigns)
+    t = Target(f"fuzz:{base_target}", check, enumerate_=enum, shards=campaigns)
+    t.watchdog_s = max_time + 300  # a campaign is bounded by -runs and -max_total_time (a time budget hit is never a verdict)
+    return t
